@@ -8,7 +8,7 @@
 //!   `fill <id> <instr> <time> <B|S> <price> <qty> <fee>`
 //!
 //! Observations: `exit …` (returned `PositionExited`), `pos …` (`PositionManager.current`) with every
-//! field, then the derived property-level lines (`side qty exited cash fees idrec opened exitfee`)
+//! field, then the derived property-level lines (`side qty exited cash fees idrec opened exitfee life exlife`)
 //! computed here from the real values exactly as `Driver/C02.lean: derived` does from the model's.
 use barter::{
     EngineEvent,
@@ -166,6 +166,26 @@ fn derived(
     ));
     lines.push(format!("opened {}", opt_approx(opened)));
     lines.push(format!("exitfee {}", opt_approx(exitfee)));
+    lines.push(match cur {
+        Some(p) => format!(
+            "life {} {} {}",
+            fmt_dec(p.quantity_abs_max),
+            ms(p.time_enter),
+            ids(&p.trades)
+        ),
+        None => "life none".into(),
+    });
+    lines.push(match exit {
+        Some(e) => format!(
+            "exlife {} {} {} {} {}",
+            fmt_dec(e.quantity_abs_max),
+            ms(e.time_enter),
+            ms(e.time_exit),
+            s2s(e.side),
+            ids(&e.trades)
+        ),
+        None => "exlife none".into(),
+    });
 }
 
 enum Mode {
